@@ -91,10 +91,11 @@ static FOREIGN_ON: AtomicBool = AtomicBool::new(false);
 static TAGS_ON: AtomicBool = AtomicBool::new(false);
 static F_CLONES: AtomicI64 = AtomicI64::new(0);
 static F_DROPS: AtomicI64 = AtomicI64::new(0);
+static F_NULLS: AtomicI64 = AtomicI64::new(0);     // entries of a foreign function with a null instance (an empty handle clones and drops without calling anything)
 #[repr(C)]
 struct Mirror { instance: *const Tok, clone_fn: Option<unsafe extern "C" fn(*const Tok) -> *const Tok>, drop_fn: Option<unsafe extern "C" fn(*const Tok)> }
-unsafe extern "C" fn f_clone(p: *const Tok) -> *const Tok { if !p.is_null() { F_CLONES.fetch_add(1, SeqCst); Arc::increment_strong_count(p); } p }
-unsafe extern "C" fn f_drop(p: *const Tok) { if !p.is_null() { F_DROPS.fetch_add(1, SeqCst); Arc::decrement_strong_count(p); } }
+unsafe extern "C" fn f_clone(p: *const Tok) -> *const Tok { if p.is_null() { F_NULLS.fetch_add(1, SeqCst); } if !p.is_null() { F_CLONES.fetch_add(1, SeqCst); Arc::increment_strong_count(p); } p }
+unsafe extern "C" fn f_drop(p: *const Tok) { if p.is_null() { F_NULLS.fetch_add(1, SeqCst); } if !p.is_null() { F_DROPS.fetch_add(1, SeqCst); Arc::decrement_strong_count(p); } }
 fn foreign_a(a: CArc<Tok>, m: i64) -> CArc<Tok> {
     if !(FOREIGN_ON.load(SeqCst) || (TAGS_ON.load(SeqCst) && m == 1)) { return a; }
     unsafe { let mut m: Mirror = std::mem::transmute(a); if !m.instance.is_null() { m.clone_fn = Some(f_clone); m.drop_fn = Some(f_drop); } std::mem::transmute(m) }
@@ -187,6 +188,7 @@ fn exec(ops: &Rows, roots: Option<&[Option<Arc<Tok>>]>, mon: &mut Mon) -> Rows {
         let take = |pool: &mut Vec<H>, i: usize| -> H { if i < pool.len() { std::mem::replace(&mut pool[i], H::Dead) } else { H::Dead } };
         let mut res: Option<Option<H>> = None; // None = rejected; Some(None) = ok, no new slot; Some(Some(h)) = new slot
         let (fc0, fd0) = (F_CLONES.load(SeqCst), F_DROPS.load(SeqCst));
+        let fn0 = F_NULLS.load(SeqCst);
         let src_tag = if matches!(c, 0 | 1 | 2) { op.get(1).copied().unwrap_or(0) } else { op.get(1).and_then(|i| tags.get(*i as usize).copied()).unwrap_or(0) };
         let src_std = op.get(1).map(|i| *i >= 0 && (*i as usize) < pool.len() && matches!(pool[*i as usize], H::Std(_))).unwrap_or(false);
         let src_nonempty = op.get(1).map(|i| (*i as usize) < pool.len() && *i >= 0 && nonempty_c(&pool[*i as usize])).unwrap_or(false);
@@ -196,7 +198,7 @@ fn exec(ops: &Rows, roots: Option<&[Option<Arc<Tok>>]>, mon: &mut Mon) -> Rows {
             2 => res = Some(Some(H::Std(match roots { None => Arc::new(Tok::mk(op[2])), Some(r) => r[k].clone().unwrap() }))),
             3 => { let i = slot(op[1]); match take(&mut pool, i) { H::Std(a) => res = Some(Some(H::A(foreign_a(if k % 2 == 0 { CArc::from(a) } else { CArc::from(Some(a)) }, src_tag)))), o => { if i < pool.len() { pool[i] = o; } } } }
             4 => { let i = slot(op[1]); match take(&mut pool, i) { H::Std(a) => res = Some(Some(H::S(foreign_s(CArcSome::from(a), src_tag)))), o => { if i < pool.len() { pool[i] = o; } } } }
-            5 => res = Some(Some(H::A(if k % 2 == 0 { CArc::from(None::<Arc<Tok>>) } else { CArc::default() }))),
+            5 => res = Some(Some(H::A(if FOREIGN_ON.load(SeqCst) && k % 3 == 0 { unsafe { std::mem::transmute::<Mirror, CArc<Tok>>(Mirror { instance: std::ptr::null(), clone_fn: Some(f_clone), drop_fn: Some(f_drop) }) } } else if k % 2 == 0 { CArc::from(None::<Arc<Tok>>) } else { CArc::default() }))),
             6 => { let i = slot(op[1]); if i < pool.len() { match &pool[i] {
                     H::A(a) => res = Some(Some(H::A(a.clone()))),
                     H::OA(a) => res = Some(Some(H::OA(a.clone()))),
@@ -230,6 +232,7 @@ fn exec(ops: &Rows, roots: Option<&[Option<Arc<Tok>>]>, mon: &mut Mon) -> Rows {
             _ => {}
         }
         if tags_on && src_std && src_tag == 1 && res.is_some() { if c == 6 { F_CLONES.fetch_add(1, SeqCst); } if c == 12 { F_DROPS.fetch_add(1, SeqCst); } }
+        if F_NULLS.load(SeqCst) != fn0 { mon.fail(format!("op{} ({}): a stored clone/drop function was entered {} time(s) with a NULL instance (an empty handle must clone and drop without calling anything)", k, c, F_NULLS.load(SeqCst) - fn0)); }
         if roots.is_none() && FOREIGN_ON.load(SeqCst) {
             let (dc, dd) = (F_CLONES.load(SeqCst) - fc0, F_DROPS.load(SeqCst) - fd0);
             let (wc, wd) = match c { 6 if src_nonempty => (1, 0), 12 if src_nonempty => (0, 1), _ => (0, 0) };
